@@ -4,6 +4,9 @@ import enumerators
 
 
 def run(name, prop, seed, table=None):
+    if name == "e2e":
+        import e2e
+        return e2e.run(prop, deep=table is None)
     assert name == "replay"
     ok, err = enumerators.build()
     if not ok:
